@@ -71,6 +71,24 @@ def r1_operator_soundness(ctx, T, rule="C12.R1"):
     ctx.require(rule, 13 * 25 + 10)
 
 
+def routed_variants(fn, sw, target_fn):
+    """Variants of the match `sw` in fn whose every path to a return calls target_fn, and those
+    for which only some paths do (match guards)."""
+    body = fn.body
+    call_blocks = {b for b, t in body.calls() if mir.callee_of(t) == target_fn.id}
+    exits = set(body.exits())
+    always, sometimes = set(), set()
+    for v, tgt in sw.arms.items():
+        reach = body.reachable(tgt)
+        if not (reach & call_blocks):
+            continue
+        if body.every_path_passes(tgt, exits, call_blocks):
+            always.add(v)
+        else:
+            sometimes.add(v)
+    return always, sometimes
+
+
 def r4_by_ref_exact(ctx, T, rule="C12.R4"):
     prog = ctx.prog
 
@@ -113,14 +131,14 @@ def r4_by_ref_exact(ctx, T, rule="C12.R4"):
     if not sws:
         raise CheckError("lint_call_arg: no match over Expression")
     sw = sws[0]
-    by_ref_variants = set()
-    for v, tgt in sw.arms.items():
-        region = mir.arm_region(arg.body, sw.bb, tgt)
-        if any(mir.callee_of(t) == by_ref.id for _b, t in mir.region_calls(arg.body, region)):
-            by_ref_variants.add(v)
-    ctx.decide(by_ref_variants == {"Variable", "ArrayElement", "Property"}, rule, rule + ":by-ref-variants",
-               arg.loc, "Variable, ArrayElement, Property",
-               "lint_call_arg routes %s to the by-reference check" % sorted(by_ref_variants))
+    by_ref_variants, mixed = routed_variants(arg, sw, by_ref)
+    ctx.decide(by_ref_variants == {"Variable", "ArrayElement", "Property"} and not mixed, rule,
+               rule + ":by-ref-variants", arg.loc, "Variable, ArrayElement, Property",
+               "lint_call_arg routes %s to the by-reference check on every path and %s only on some paths "
+               "(a guard sends the rest to the by-value check): an argument the generator passes by "
+               "reference is accepted with a merely castable type, and the callee's value of the "
+               "parameter type is written back into the caller's variable"
+               % (sorted(by_ref_variants), sorted(mixed)))
     ctx.require(rule, 25 + 5 + 3)
 
 
